@@ -152,6 +152,9 @@ fn count_osstr_chars_for_exec(s: &OsStr) -> usize {
 struct MaxCharsCommandSizeLimiter {
     current_size: usize,
     max_chars: usize,
+    /// Extra space charged for every argument (for the operating system's
+    /// limit: the pointer to the argument, which counts against the budget).
+    per_arg_overhead: usize,
 }
 
 impl MaxCharsCommandSizeLimiter {
@@ -159,6 +162,7 @@ impl MaxCharsCommandSizeLimiter {
         Self {
             current_size: 0,
             max_chars,
+            per_arg_overhead: 0,
         }
     }
 
@@ -174,14 +178,21 @@ impl MaxCharsCommandSizeLimiter {
         // POSIX requires that we leave 2048 bytes of space so that the child processes
         // can have room to set their own environment variables.
         const ARG_HEADROOM: usize = 2048;
+        // The kernel charges the argv/envp pointers against the same budget as
+        // the strings themselves.
+        const POINTER_SIZE: usize = std::mem::size_of::<*const uucore::libc::c_char>();
         let arg_max = unsafe { uucore::libc::sysconf(uucore::libc::_SC_ARG_MAX) } as usize;
 
         let env_size: usize = env
             .iter()
-            .map(|(var, value)| count_osstr_chars_for_exec(var) + count_osstr_chars_for_exec(value))
+            .map(|(var, value)| {
+                count_osstr_chars_for_exec(var) + count_osstr_chars_for_exec(value) + POINTER_SIZE
+            })
             .sum();
 
-        Self::new(arg_max - ARG_HEADROOM - env_size)
+        let mut limiter = Self::new(arg_max - ARG_HEADROOM - env_size);
+        limiter.per_arg_overhead = POINTER_SIZE;
+        limiter
     }
 }
 
@@ -192,6 +203,7 @@ impl CommandSizeLimiter for MaxCharsCommandSizeLimiter {
         cursor: LimiterCursor<'_>,
     ) -> Result<Argument, ExhaustedCommandSpace> {
         let chars = count_osstr_chars_for_exec(&arg.arg);
+        let chars = chars + self.per_arg_overhead;
         if self.current_size + chars <= self.max_chars {
             let arg = cursor.try_next(arg)?;
             self.current_size += chars;
